@@ -14,13 +14,19 @@ Not exhibited: the Go memory model, races inside x/tools — exercised by the `d
 -/
 namespace GGV.Props.C11
 
-/-- the only assignment to a package-level variable outside initialisers is `cachedConfig` in `runConfig`;
-    every other post-init site is a call of a read-only method on a regexp / matcher, or `configOnce.Do` -/
-theorem shared_state_justified :
-    GGV.Gen.packageVarWrites.all (fun w =>
-      (w.1 == "src/analyzer.cachedConfig" && w.2.1 == "src/analyzer.runConfig" && w.2.2 == "assign") ||
-      (w.1 == "src/analyzer.configOnce" && w.2.2 == "ptrcall:Do") ||
-      w.2.2 == "ptrcall:FindStringSubmatch" || w.2.2 == "ptrcall:Contains") = true := by decide
+/-- a post-initialisation write site of a package-level variable that is harmless under concurrency: an assignment
+    inside the function given to `Do` of a package-level `sync.Once`; `Once.Do` itself; any method of `*regexp.Regexp`
+    except the configuration method `Longest` ("a Regexp is safe for concurrent use by multiple goroutines, except
+    for configuration methods"); the thread-safe lookups of the Aho-Corasick matcher -/
+def harmlessWrite (w : String × String × String × String × String) : Bool :=
+  w.2.2.1 == "assign-under-once" ||
+  (w.2.2.1 == "ptrcall" && w.2.2.2.1 == "sync.Once" && w.2.2.2.2 == "Do") ||
+  (w.2.2.1 == "ptrcall" && w.2.2.2.1 == "regexp.Regexp" && w.2.2.2.2 != "Longest") ||
+  (w.2.2.1 == "ptrcall" && w.2.2.2.1 == "ahocorasick.Matcher" && (w.2.2.2.2 == "Contains" || w.2.2.2.2 == "MatchThreadSafe"))
+
+/-- after initialisation a package-level variable is only assigned under a `sync.Once`; every other site is a call
+    of a method that is safe for concurrent use (decided over T6, regenerated from /repo) -/
+theorem shared_state_justified : GGV.Gen.packageVarWrites.all harmlessWrite = true := by decide +kernel
 
 /-- no package-level variable has a map, slice or pointer-to-struct type that a checker fills at run time:
     the variables are the analyzers, the regexes, the matchers, the two code tables, the config cache -/
@@ -29,22 +35,18 @@ theorem shared_state_inventory :
       v.2 == "*analysis.Analyzer" || v.2 == "*regexp.Regexp" || v.2 == "*ahocorasick.Matcher" ||
       v.2 == "map[string][]codes.Code" || v.2 == "map[string][]string" || v.2 == "*config.Config" || v.2 == "sync.Once") = true := by decide
 
-/-- the index builders: they fill an index that belongs to one checker's pass over one package (never shared) -/
-def indexBuilders : List String :=
-  ["src/util.AttachmentsMap.AddPkgFunctionAttachment", "src/util.AttachmentsMap.AddPkgTypeAttachment",
-   "src/util.AttachmentsMap.AddPkgTypeMethodAttachment", "src/util.TypeAssociationRegistry.Add", "src/util.TypesMap.Add"]
-
 /-- **lookups do not write**: of the methods that the checkers — which run concurrently on one package and share
     the readers' results (the ignore set, the annotations, the configuration) — call on reader / utility types,
-    only the per-pass index builders assign to their receiver's state, directly or through calls on the same
-    receiver (decided over T9, regenerated from /repo). `IgnoreSet.Contains`, the `Has*` / `Get*` / `Match` /
-    `Empty` lookups and `Config.FilterFiles` are read-only, so sharing them needs no synchronisation. -/
+    those that assign to their receiver's state (directly or through calls on the same receiver) are called from the
+    index-building package only, where they fill an index that belongs to one checker's pass over one package
+    (decided over T9, regenerated from /repo). `IgnoreSet.Contains`, the `Has*` / `Get*` / `Match` / `Empty` lookups
+    and `Config.FilterFiles` are read-only, so sharing them needs no synchronisation. -/
 theorem shared_lookups_read_only :
-    GGV.Gen.sharedReadMethods.all (fun m => m.2 == "" || indexBuilders.contains m.1) = true := by decide +kernel
+    GGV.Gen.sharedReadMethods.all (fun m => m.2.1 == "" || m.2.2 == "src/indexing") = true := by decide +kernel
 
 /-- … and the lookup the reporters share is among them -/
 theorem contains_is_shared_lookup :
-    (GGV.Gen.sharedReadMethods.any (fun m => m.1 == "src/util.IgnoreSet.Contains")) = true := by decide +kernel
+    (GGV.Gen.sharedReadMethods.any (fun m => m.1 == "src/util.IgnoreSet.Contains" && m.2.1 == "")) = true := by decide +kernel
 
 /-! ## `sync.Once` interleavings -/
 
